@@ -371,8 +371,8 @@ theorem prod_sound (E : Ext R) (Ms : List (Op R)) (l : List (InvOp R)) (hne : Ms
 theorem forall₂_facInv (E : Ext R) {Ms : List (Op R)} {l : List (InvOp R)}
     (h : List.Forall₂ (IsInverse E) Ms l) :
     List.Forall₂ FacInv
-      (Ms.map (fun M => (⟨M.rows, M.cols, M.den.f, fun _ m => m⟩ : FacAct R)))
-      (l.map (fun M => (⟨M.rows, M.cols, (M.den E).f, fun _ m => m⟩ : FacAct R))) := by
+      (Ms.map (fun M => (⟨M.rows, M.cols, M.den.f, fun _ m => MatV.of m⟩ : FacAct R)))
+      (l.map (fun M => (⟨M.rows, M.cols, (M.den E).f, fun _ m => MatV.of m⟩ : FacAct R))) := by
   rw [List.forall₂_map_left_iff, List.forall₂_map_right_iff]
   exact List.Forall₂.imp (fun M B hMB => ⟨hMB.sq, hMB.rows, hMB.cols, hMB.rinv⟩) h
 
@@ -394,10 +394,10 @@ theorem kron_sound (E : Ext R) (Ms : List (Op R)) (l : List (InvOp R))
 theorem bdiag_sound (E : Ext R) (Ms : List (Op R)) (mults : List Nat) (l : List (InvOp R))
     (h : List.Forall₂ (IsInverse E) Ms l) : IsInverse E (.bdiag Ms mults) (.bdiag l mults) := by
   obtain ⟨e1, e2, e3, hr⟩ := rinv_bdiagDen mults (forall₂_facInv E h)
-  have r1 := dotSum_rows (R := R) (fun M : Op R => (⟨M.rows, M.cols, M.den.f, fun _ m => m⟩ : FacAct R)) Ms mults
-  have c1 := dotSum_cols (R := R) (fun M : Op R => (⟨M.rows, M.cols, M.den.f, fun _ m => m⟩ : FacAct R)) Ms mults
-  have r2 := dotSum_rows (R := R) (fun M : InvOp R => (⟨M.rows, M.cols, (M.den E).f, fun _ m => m⟩ : FacAct R)) l mults
-  have c2 := dotSum_cols (R := R) (fun M : InvOp R => (⟨M.rows, M.cols, (M.den E).f, fun _ m => m⟩ : FacAct R)) l mults
+  have r1 := dotSum_rows (R := R) (fun M : Op R => (⟨M.rows, M.cols, M.den.f, fun _ m => MatV.of m⟩ : FacAct R)) Ms mults
+  have c1 := dotSum_cols (R := R) (fun M : Op R => (⟨M.rows, M.cols, M.den.f, fun _ m => MatV.of m⟩ : FacAct R)) Ms mults
+  have r2 := dotSum_rows (R := R) (fun M : InvOp R => (⟨M.rows, M.cols, (M.den E).f, fun _ m => MatV.of m⟩ : FacAct R)) l mults
+  have c2 := dotSum_cols (R := R) (fun M : InvOp R => (⟨M.rows, M.cols, (M.den E).f, fun _ m => MatV.of m⟩ : FacAct R)) l mults
   simp only at r1 c1 r2 c2
   rw [← r1] at e1 e2 e3 hr
   rw [← c1] at e1
